@@ -288,7 +288,11 @@ def forwards_to_method(obj, wrapped_name, *args, **kwargs):
         return
     wrapped = self
     for attr in wrapped_name.split('.'):
-        wrapped = getattr(wrapped, attr)
+        try:
+            wrapped = getattr(wrapped, attr)
+        except AttributeError:
+            raise ValueError(
+                '{0!r} has no attribute {1!r}'.format(wrapped, attr))
     return forwards(obj, wrapped, *args, **kwargs)
 
 
@@ -343,9 +347,13 @@ def forwards_to_super(obj, cls=None, *args, **kwargs):
         self = None
     if self is None:
         return
-    inner = getattr(
-        super(_get_origin_class(obj, cls), self),
-        obj.__name__)
+    try:
+        inner = getattr(
+            super(_get_origin_class(obj, cls), self),
+            obj.__name__)
+    except AttributeError:
+        raise ValueError(
+            'No attribute {0!r} on the super object'.format(obj.__name__))
     return forwards(obj, inner, *args, **kwargs)
 
 
